@@ -363,6 +363,12 @@ impl Workspace {
         for (path, previous) in undo.into_iter().rev() {
             match previous {
                 Some(bytes) => {
+                    // A later op of the same patch may have turned the file's path into a
+                    // directory (everything below it was created by the patch and is already
+                    // reverted).
+                    if path.is_dir() {
+                        let _ = fs::remove_dir_all(&path);
+                    }
                     if let Some(parent) = path.parent() {
                         let _ = fs::create_dir_all(parent);
                     }
